@@ -32,6 +32,7 @@ DD = "black_it.utils.base:digitize_data"
 def run(ctx: Context) -> None:
     ctx.rule(r1_r3_get_closest)
     ctx.rule(r2_digitize)
+    ctx.rule(dtype_rule)
 
 
 def r1_r3_get_closest(ctx: Context) -> None:
@@ -232,3 +233,13 @@ def _fresh_like(e: ast.expr, data: str) -> bool:
         if fn in ("zeros_like", "empty_like", "ones_like", "copy", "array") and e.args and src(e.args[0]) == data:
             return True
     return False
+
+
+def dtype_rule(ctx: Context) -> None:
+    """Results must not be stored into arrays that inherit the dtype of caller-supplied data (integer input would truncate them)."""
+    from ..util import dtype_inheritance_sites
+    funcs = [f for f in ctx.prog.all_functions() if f.module.name.startswith(('black_it.utils.base',))]
+    for f, node, what in dtype_inheritance_sites(ctx.prog, funcs):
+        ctx.fail("R4.dtype", f"{f.qualname.split(':')[1]}:inherited-dtype:{' '.join(src(node).split())[:50]}",
+                 f"{what}: for integer or lower-precision input the value is silently truncated / rounded on assignment, so the result is no longer what the definition gives", f, node)
+    ctx.ok("R4.dtype", "c17:scanned", f"{len(funcs)} functions: no computed value is stored into an array of inherited dtype")
